@@ -5,6 +5,7 @@ use serde_json::Value;
 use std::panic::catch_unwind;
 
 mod statuslist;
+mod jws;
 
 // the Kani harness bodies, compiled natively (cfg(not(kani))) and fed with CBMC's concrete values
 #[macro_use]
@@ -14,10 +15,13 @@ pub mod sym;
 pub mod stubs;
 #[path = "../../kani/src/c12.rs"]
 pub mod c12;
+#[path = "../../kani/src/c13.rs"]
+pub mod c13;
 
 fn kani_bodies() -> Vec<(&'static str, fn())> {
   let mut v: Vec<(&'static str, fn())> = Vec::new();
   v.extend_from_slice(c12::BODIES);
+  v.extend_from_slice(c13::BODIES);
   v
 }
 
@@ -62,6 +66,7 @@ fn main() {
   let verdict: Result<String, String> = match scenario {
     "statuslist_set" | "statuslist_get" | "statuslist_set_get" => statuslist::run(scenario, &cex),
     "statuslist_oneway" => statuslist::oneway(&cex),
+    "jws_binding" => jws::binding(&cex),
     "kani" => kani_replay(&cex),
     "selftest" => selftest(),
     _ => Err(format!("unknown scenario {scenario}")),
